@@ -127,3 +127,81 @@ func labelDocCases(seed int64, id0 int) []*Case {
 	}
 	return res
 }
+
+// ---- round 8: strconv.QuotedPrefix against the contract model/ReadLabelDoc.v's termination theorem needs of it
+// (consumes_something: err == nil -> 1 <= len(q) <= len(s); the real one returns at least the two quotes and a prefix of s),
+// on EVERY suffix of every row the label-document requests of this run carry (cut documents and one-byte mutants), and a
+// sample of (text, len(q) or 0) on suffixes of the cut rows that start with a double quote, for the comparison with
+// ReadLabelDoc.qp_scan inside Coq. Pure function of the standard library: runs in the parent, no request involved.
+type QPSample struct {
+	Hex  string `json:"hex"`
+	Real int    `json:"real"`
+}
+
+type QPReport struct {
+	Rows       int        `json:"rows"`
+	Calls      int        `json:"calls"`
+	Accepted   int        `json:"accepted"`
+	MinLen     int        `json:"min_len"`
+	MaxLen     int        `json:"max_len"`
+	Violations []string   `json:"violations"`
+	Samples    []QPSample `json:"samples"`
+}
+
+func qpContractReport(seed int64, maxSamples int) *QPReport {
+	rep := &QPReport{MinLen: -1, Violations: []string{}, Samples: []QPSample{}}
+	seenRow := map[string]bool{}
+	seenSample := map[string]bool{}
+	var pool []QPSample
+	for _, c := range labelDocCases(seed, 0) {
+		cut := strings.Contains(c.Class, "labeldoc-cut")
+		for _, row := range c.Script[0].Rows {
+			t := ""
+			if row[0].S != nil {
+				t = *row[0].S
+			}
+			if seenRow[t] {
+				continue
+			}
+			seenRow[t] = true
+			rep.Rows++
+			for i := 0; i <= len(t); i++ {
+				s := t[i:]
+				q, err := strconv.QuotedPrefix(s)
+				rep.Calls++
+				real := 0
+				if err == nil {
+					rep.Accepted++
+					real = len(q)
+					if len(q) < 2 || len(q) > len(s) || s[:len(q)] != q {
+						if len(rep.Violations) < 5 {
+							rep.Violations = append(rep.Violations, fmt.Sprintf("QuotedPrefix(%q) = %q", s, q))
+						}
+						if len(q) > len(s) {
+							continue
+						}
+					}
+					if rep.MinLen < 0 || len(q) < rep.MinLen {
+						rep.MinLen = len(q)
+					}
+					if len(q) > rep.MaxLen {
+						rep.MaxLen = len(q)
+					}
+				}
+				if cut && len(s) > 0 && s[0] == '"' && !seenSample[s] {
+					seenSample[s] = true
+					pool = append(pool, QPSample{Hex: fmt.Sprintf("%x", s), Real: real})
+				}
+			}
+		}
+	}
+	// an even pick over the pool (deterministic), so that accepted and refused texts of every document are among the samples
+	if maxSamples <= 0 || len(pool) <= maxSamples {
+		rep.Samples = append(rep.Samples, pool...)
+	} else {
+		for k := 0; k < maxSamples; k++ {
+			rep.Samples = append(rep.Samples, pool[k*len(pool)/maxSamples])
+		}
+	}
+	return rep
+}
